@@ -21,6 +21,21 @@ import (
 var t *lib.Trace
 var r *rand.Rand
 
+// fail records a direct-oracle failure, at most maxPerSig lines per signature: lib.Trace keeps
+// only the first 200 F lines of a run, and the two open known findings alone produce more than
+// that, which would hide any later (new) failing input.
+const maxPerSig = 6
+
+var sigCount = map[string]int{}
+
+func fail(sig, desc string) {
+	sigCount[sig]++
+	t.Count("F:" + sig)
+	if sigCount[sig] <= maxPerSig {
+		t.Fail(sig, desc)
+	}
+}
+
 func sgn(n int) int {
 	if n < 0 {
 		return -1
@@ -157,10 +172,15 @@ func genDnum() dnum.Dnum {
 	case 1:
 		t.Count("dnum:zero")
 		return dnum.Zero
-	case 2:
-		t.Count("dnum:expedge")
-		e := []int{-128, -127, 127, 126, 0, 1, 16, 17, 19, 20}[r.Intn(10)]
-		return dnum.New(int8(1-2*r.Intn(2)), uint64(1+r.Intn(9999)), e)
+	case 2, 4:
+		// exact exponent after normalisation (16 digit coefficient, so New does not shift)
+		e := []int{-128, -128, -127, -126, -125, 125, 126, 127, 127, 0, 1, 16, 17, 19, 20}[r.Intn(15)]
+		t.Count(fmt.Sprintf("dnum:exp=%d", e))
+		return dnum.New(int8(1-2*r.Intn(2)), coef16(), e)
+	case 5:
+		// beyond the representable exponents: New gives zero / infinity
+		t.Count("dnum:exp-overflow")
+		return dnum.New(int8(1-2*r.Intn(2)), coef16(), []int{-130, -129, 128, 129, 140}[r.Intn(5)])
 	case 3:
 		t.Count("dnum:fromint")
 		return dnum.FromInt(genInt64())
@@ -179,6 +199,23 @@ func genDnum() dnum.Dnum {
 		sign = -1
 	}
 	return dnum.New(sign, c, r.Intn(44)-12)
+}
+
+// coef16 returns a normalised (16 digit) coefficient: extremes, few significant pairs, random
+func coef16() uint64 {
+	switch r.Intn(6) {
+	case 0:
+		return 1000000000000000
+	case 1:
+		return 9999999999999999
+	case 2:
+		return uint64(10+r.Intn(90)) * 100000000000000 // one digit pair
+	case 3:
+		return uint64(1000+r.Intn(9000)) * 1000000000000 // two pairs
+	case 4:
+		return 1000000000000000 + uint64(r.Intn(100)) // long run of zero pairs inside
+	}
+	return 1000000000000000 + uint64(r.Int63n(9000000000000000))
 }
 
 // related returns a number close to / digit-prefix-related with x (to hit order corner cases)
@@ -311,7 +348,30 @@ func strVal(s string) sval {
 			k = r.Intn(len(s) + 1)
 		}
 		c = c.Add(s[:k]).Add(s[k:])
+		switch r.Intn(4) {
+		case 0:
+			// another concatenation extends the shared buffer in place: c is now a proper
+			// prefix of its buffer
+			t.Count("repr:concat-buffer-extended")
+			_ = c.Add("+" + genStr())
+		case 1:
+			// twice: the second Add must copy (buffer no longer ends at c)
+			t.Count("repr:concat-buffer-extended-twice")
+			d := c.Add("x")
+			_ = c.Add("yy" + genStr())
+			_ = d
+		case 2:
+			// c itself is the extension of an earlier (shorter) concat that stays alive
+			t.Count("repr:concat-extension-of-shared")
+			base := NewSuConcat().Add(s[:k])
+			_ = base.Add("zzz")
+			c = base.Add(s[k:]) // copies because base's buffer was extended
+		}
 		return sval{c, "concat", "packstr " + lib.X(s)}
+	}
+	if r.Intn(12) == 0 {
+		t.Count("repr:except")
+		return sval{BuiltinSuExcept(s), "except", "packstr " + lib.X(s)}
 	}
 	t.Count("repr:str")
 	return sval{SuStr(s), "str", "packstr " + lib.X(s)}
@@ -365,7 +425,7 @@ func genDate() sval {
 			lit := fmt.Sprintf("#%04d%02d%02d.%02d%02d%02d%03d%03d", y, mo, d, h, mi, s, ms, extra)
 			ts := DateFromLiteral(lit)
 			if _, ok := ts.(SuTimestamp); !ok {
-				t.Fail("ts-literal", "DateFromLiteral("+lit+") is not a timestamp")
+				fail("ts-literal", "DateFromLiteral("+lit+") is not a timestamp")
 				continue
 			}
 			t.Count("repr:timestamp")
@@ -418,7 +478,7 @@ func relatedScalar(x sval) sval {
 			return intVal(n)
 		}
 		return dnumVal(d)
-	case "str", "concat":
+	case "str", "concat", "except":
 		s := ToStr(x.v)
 		switch r.Intn(4) {
 		case 0:
@@ -518,6 +578,8 @@ func kindOf(v Value) string {
 		return "str"
 	case SuConcat:
 		return "concat"
+	case *SuExcept:
+		return "except"
 	case SuBool:
 		return "bool"
 	case SuDate:
@@ -579,11 +641,11 @@ func taint(v Value, isKey bool) string {
 func checkScalar(x sval) (p string, ok bool) {
 	var size int
 	if e := lib.Catch(func() { p = PackValue(x.v); size = PackSize(x.v) }); e != "" {
-		t.Fail("pack-panic-"+x.kind, fmt.Sprintf("PackValue(%v) panics: %s", x.v, e))
+		fail("pack-panic-"+x.kind, fmt.Sprintf("PackValue(%v) panics: %s", x.v, e))
 		return "", false
 	}
 	if size != len(p) {
-		t.Fail("packsize-"+x.kind, fmt.Sprintf("PackSize(%v)=%d but len(Pack)=%d", x.v, size, len(p)))
+		fail("packsize-"+x.kind, fmt.Sprintf("PackSize(%v)=%d but len(Pack)=%d", x.v, size, len(p)))
 	}
 	switch x.kind {
 	case "smi", "int64", "dnum":
@@ -606,14 +668,14 @@ func checkScalar(x sval) (p string, ok bool) {
 		t.Q("unpack "+lib.X(p), valStr(u))
 	}
 	if sig != "" {
-		t.Fail(sig, desc)
+		fail(sig, desc)
 	}
 	if u == nil {
 		return p, true
 	}
 	var p2 string
 	if e := lib.Catch(func() { p2 = PackValue(u) }); e != "" || p2 != p {
-		t.Fail("canon-repack-"+x.kind, fmt.Sprintf("Pack(Unpack(Pack(%v))) = %x, first pack %x %s", x.v, p2, p, e))
+		fail("canon-repack-"+x.kind, fmt.Sprintf("Pack(Unpack(Pack(%v))) = %x, first pack %x %s", x.v, p2, p, e))
 	}
 	// canonical across representations of the same number
 	switch x.kind {
@@ -623,7 +685,7 @@ func checkScalar(x sval) (p string, ok bool) {
 			t.Count("canon:int-vs-dnum")
 			pd := PackValue(SuDnum{Dnum: dnum.FromInt(int64(n))})
 			if pd != p {
-				t.Fail("canon-int-dnum", fmt.Sprintf("Pack(int %d)=%x but Pack(dnum %d)=%x", n, p, n, pd))
+				fail("canon-int-dnum", fmt.Sprintf("Pack(int %d)=%x but Pack(dnum %d)=%x", n, p, n, pd))
 			}
 			t.Q(fmt.Sprintf("fromint %d", n), numStr(SuDnum{Dnum: dnum.FromInt(int64(n))}))
 		}
@@ -632,7 +694,7 @@ func checkScalar(x sval) (p string, ok bool) {
 			t.Count("canon:dnum-vs-int")
 			pi := PackValue(IntVal(int(n)))
 			if pi != p {
-				t.Fail("canon-int-dnum", fmt.Sprintf("Pack(dnum %v)=%x but Pack(int %d)=%x", x.v, p, n, pi))
+				fail("canon-int-dnum", fmt.Sprintf("Pack(dnum %v)=%x but Pack(int %d)=%x", x.v, p, n, pi))
 			}
 		}
 	}
@@ -650,7 +712,7 @@ func checkPair(x, y sval) {
 	var cv int
 	var eq bool
 	if e := lib.Catch(func() { cv = sgn(x.v.Compare(y.v)); eq = x.v.Equal(y.v) }); e != "" {
-		t.Fail("compare-panic", fmt.Sprintf("Compare(%v, %v) panics: %s", x.v, y.v, e))
+		fail("compare-panic", fmt.Sprintf("Compare(%v, %v) panics: %s", x.v, y.v, e))
 		return
 	}
 	xn, yn := isNum(x.v), isNum(y.v)
@@ -662,16 +724,16 @@ func checkPair(x, y sval) {
 	// equal scalars <-> identical bytes
 	if eq != (px == py) {
 		if xn && yn && y.v.Equal(x.v) != eq {
-			t.Fail("equal-asym-int64-dnum", desc+fmt.Sprintf(" y.Equal(x)=%v", y.v.Equal(x.v)))
+			fail("equal-asym-int64-dnum", desc+fmt.Sprintf(" y.Equal(x)=%v", y.v.Equal(x.v)))
 		} else {
-			t.Fail("canon-equal-"+x.kind+"-"+y.kind, desc)
+			fail("canon-equal-"+x.kind+"-"+y.kind, desc)
 		}
 	}
 	// the empty string packs to the smallest encoding
 	if px == "" || py == "" {
 		t.Count("order:with-empty")
 		if (px == "" && py != "" && cb >= 0) || (py == "" && px != "" && cb <= 0) {
-			t.Fail("empty-smallest", desc)
+			fail("empty-smallest", desc)
 		}
 		return
 	}
@@ -682,11 +744,11 @@ func checkPair(x, y sval) {
 	switch {
 	case xn && yn && cv == 0 && !eq && (bigInt(x.v) || bigInt(y.v)) && x.kind != y.kind:
 		// Compare converts the int64 to a 16 digit dnum (rounding); the packed bytes keep all digits
-		t.Fail("order-int64-dnum-rounding", desc)
+		fail("order-int64-dnum-rounding", desc)
 	case xn && yn && isNegNum(x.v) && isNegNum(y.v) && (strings.HasPrefix(px, py) || strings.HasPrefix(py, px)):
-		t.Fail("order-neg-prefix", desc)
+		fail("order-neg-prefix", desc)
 	default:
-		t.Fail("order-"+x.kind+"-"+y.kind, desc)
+		fail("order-"+x.kind+"-"+y.kind, desc)
 	}
 }
 
@@ -776,11 +838,11 @@ func checkContainer(v Value) {
 	var p string
 	var size int
 	if e := lib.Catch(func() { p = PackValue(v); size = PackSize(v) }); e != "" {
-		t.Fail("pack-panic-container", fmt.Sprintf("PackValue(%v) panics: %s", v, e))
+		fail("pack-panic-container", fmt.Sprintf("PackValue(%v) panics: %s", v, e))
 		return
 	}
 	if size != len(p) {
-		t.Fail("packsize-container", fmt.Sprintf("PackSize(%v)=%d len=%d", v, size, len(p)))
+		fail("packsize-container", fmt.Sprintf("PackSize(%v)=%d len=%d", v, size, len(p)))
 	}
 	var u Value
 	if e := lib.Catch(func() { u = Unpack(p) }); e != "" {
@@ -788,7 +850,7 @@ func checkContainer(v Value) {
 		if sig == "" {
 			sig = "rt-panic-container"
 		}
-		t.Fail(sig, fmt.Sprintf("Unpack(Pack(%v)) panics: %s", v, e))
+		fail(sig, fmt.Sprintf("Unpack(Pack(%v)) panics: %s", v, e))
 		return
 	}
 	if !u.Equal(v) || !v.Equal(u) {
@@ -796,10 +858,10 @@ func checkContainer(v Value) {
 		if sig == "" {
 			sig = "rt-container"
 		}
-		t.Fail(sig, fmt.Sprintf("Unpack(Pack(%v)) = %v: unpacked.Equal(orig)=%v orig.Equal(unpacked)=%v", v, u, u.Equal(v), v.Equal(u)))
+		fail(sig, fmt.Sprintf("Unpack(Pack(%v)) = %v: unpacked.Equal(orig)=%v orig.Equal(unpacked)=%v", v, u, u.Equal(v), v.Equal(u)))
 	}
 	if _, isRec := v.(*SuRecord); isRec != (p[0] == PackRecord) {
-		t.Fail("rt-container-tag", fmt.Sprintf("%v packed with tag %d", v, p[0]))
+		fail("rt-container-tag", fmt.Sprintf("%v packed with tag %d", v, p[0]))
 	}
 	c, _ := u.ToContainer()
 	list, named := members(c)
@@ -807,12 +869,12 @@ func checkContainer(v Value) {
 	// must give the same member encodings (named members compared as a sorted multiset)
 	ml, mn, okm := unframe(p)
 	if !okm {
-		t.Fail("container-frame", fmt.Sprintf("cannot unframe Pack(%v) = %x", v, p))
+		fail("container-frame", fmt.Sprintf("cannot unframe Pack(%v) = %x", v, p))
 		return
 	}
 	sort.Slice(mn, func(i, j int) bool { return mn[i].k < mn[j].k })
 	if membStr(ml, mn) != membStr(list, named) {
-		t.Fail("container-members", fmt.Sprintf("members of Pack(%v) differ from packed members of Unpack: %s vs %s",
+		fail("container-members", fmt.Sprintf("members of Pack(%v) differ from packed members of Unpack: %s vs %s",
 			v, membStr(ml, mn), membStr(list, named)))
 	}
 	// model: objun on the real bytes, in packed order (no sorting needed: model output is in
@@ -848,14 +910,14 @@ func checkContainer(v Value) {
 func checkPacked(m string) {
 	var u Value
 	if e := lib.Catch(func() { u = Unpack(m) }); e != "" {
-		t.Fail("member-unpack-panic", fmt.Sprintf("Unpack(%x) panics: %s", m, e))
+		fail("member-unpack-panic", fmt.Sprintf("Unpack(%x) panics: %s", m, e))
 		return
 	}
 	if _, ok := u.ToContainer(); ok {
 		return // order of named members may differ
 	}
 	if p2 := PackValue(u); p2 != m {
-		t.Fail("member-canon", fmt.Sprintf("member %x re-packs to %x", m, p2))
+		fail("member-canon", fmt.Sprintf("member %x re-packs to %x", m, p2))
 	}
 	if len(m) > 0 && (m[0] == PackPlus || m[0] == PackMinus) {
 		t.Q("unpacknum "+lib.X(m), numStr(u))
@@ -1045,6 +1107,6 @@ func main() {
 	checkContainer(nestDepth(15))
 	checkContainer(nestDepth(16))
 	if e := lib.Catch(func() { PackValue(nestDepth(17)) }); !strings.Contains(e, "nesting") {
-		t.Fail("nesting-limit", "packing 17 nested objects: "+e)
+		fail("nesting-limit", "packing 17 nested objects: "+e)
 	}
 }
